@@ -442,16 +442,19 @@ class DictDecoder:
             One of the xml vars, if all search attributes match, None otherwise.
         """
         for var in xml_vars:
-            if var.local_name == key:
-                var_is_list = var.list_element or var.tokens
-                is_array = collections.is_array(value)
-                if is_array == var_is_list:
-                    return var
-            elif var.wrapper == key:
+            if var.wrapper:
+                if var.wrapper != key:
+                    continue
+
                 if isinstance(value, dict) and var.local_name in value:
                     val = value[var.local_name]
                     var_is_list = var.list_element or var.tokens
                     is_array = collections.is_array(val)
                     if is_array == var_is_list:
                         return var
+            elif var.local_name == key:
+                var_is_list = var.list_element or var.tokens
+                is_array = collections.is_array(value)
+                if is_array == var_is_list:
+                    return var
         return None
